@@ -5,7 +5,9 @@ ordered pair of a threshold grid (pipespec.check_monotone)."""
 import random
 from fractions import Fraction
 
-from vp import pipeprops, pipespec, pipe
+from vp import pipeprops, pipespec, pipe, pipemap
+
+pipemap.install()      # shape-map runs (cfg["smap"]) go through Model.RunMap / Shaper(shape_map_raw=...)
 
 
 class Spec(pipeprops.PropSpec):
@@ -15,7 +17,8 @@ class Spec(pipeprops.PropSpec):
     projection_name = "per shape label, instance count, constraint keys and all figures (lines and comments)"
     rule = ("graphs as C01 x a grid of thresholds containing 0, 1, every k/n boundary of the class sizes present and a "
             "few odd values: one fresh Shaper per threshold, all ordered pairs compared; switch assignments "
-            "round-robin; non-trivial = some class with >= 2 instances and some non-typing triple")
+            "round-robin; non-trivial = some class with >= 2 instances and some non-typing triple; plus the shape-map "
+            "stream (vp.pipemap; selectors answering IRIs) at a grid of thresholds on the k/n boundaries of the label sizes")
 
     def gen_cases(self, tier, rnd):
         n = 6000 if tier == "thorough" else 400
@@ -33,6 +36,7 @@ class Spec(pipeprops.PropSpec):
                 c["thr"] = t
                 runs.append((ts, c))
             cases.append({"runs": runs, "meta": {"i": i}})
+        cases += pipemap.stream(tier, rnd, 400, 4000, only_iri=True, grid=True)
         return cases
 
     def oracle(self, case, impl):
@@ -40,6 +44,8 @@ class Spec(pipeprops.PropSpec):
             return [], 0
         ts = case["runs"][0][0]
         cfgs = [rn[1] for rn in case["runs"]]
+        if pipemap.is_map(cfgs[0]):
+            return pipemap.check_monotone_map(ts, cfgs, [pipe.canon(r[1]) for r in impl])
         return pipespec.check_monotone(ts, cfgs, [pipe.canon(r[1]) for r in impl])
 
 
